@@ -5,9 +5,13 @@
                                                               against the harness's RFC oracle)
     act <L> <K:int> <H:hex> <sid:hex> <role:c|s> <dir:in|out> <local_cipher> <remote_cipher> <local_mac> <remote_mac>
         → iv key mackey macKeyArg ivArg macSizeArg blockSizeArg   (`none` for a Python None)
+    nonce <send|recv> <iv:hex12> <n>   → n tokens: the nonce of packet 0, 1, … under the statement order the source
+                                         has at that site (AST fact in PV.Generated.C04), `overflow` where the counter
+                                         step raises (nothing follows)
   cipher / mac are looked up in the tables regenerated from the source; unknown → `unknown-algo`.
 -/
 import PV.Model.KeyDerive
+import PV.Model.AeadNonce
 import PV.Generated.C04
 import PV.Base.DriverIO
 open PV PV.KeyDerive
@@ -50,6 +54,15 @@ def step (line : String) : String :=
         | _, _, _, _ => "unknown-algo"
       | _, _ => "bad-op"
     | none => "bad-op"
+  | ["nonce", site, iv, n] =>
+    let flag? : Option Bool :=
+      if site == "send" then some PV.Generated.C04.aeadSendUseFirst
+      else if site == "recv" then some PV.Generated.C04.aeadRecvUseFirst else none
+    match flag?, ofHex? iv, n.toNat? with
+    | some f, some iv, some n =>
+      if iv.length != 12 then "bad-op" else
+      " ".intercalate ((PV.AeadNonce.trace f n iv).map fun o => match o with | some b => toHexTok b | none => "overflow")
+    | _, _, _ => "bad-op"
   | _ => "bad-op"
 
 def main : IO Unit := lineLoop step
